@@ -4,6 +4,7 @@ import (
 	"fmt"
 	"os"
 	"strings"
+	"unicode/utf8"
 
 	"github.com/carapace-sh/carapace/internal/common"
 )
@@ -52,6 +53,9 @@ func commonPrefix(a, b string) string {
 	i := 0
 	for i < len(a) && i < len(b) && a[i] == b[i] {
 		i++
+	}
+	for i > 0 && i < len(a) && !utf8.RuneStart(a[i]) {
+		i-- // don't cut a multi-byte character in half
 	}
 	return a[0:i]
 }
